@@ -180,10 +180,11 @@ def solve_level(case, n):
         base = LADDER[nd][0]
         nsteps = 2 * (n // base) ** 2 if case['scheme'] != 'upwind' else 2 * (n // base)
         dt = case['T'] / nsteps
+        alpha_cv = pf.CellVariable(m, at_cells(F['alpha']))
         for k in range(nsteps):
             t = (k + 1) * dt
             set_bc(phi.BCs, t)
-            pf.solvePDE(phi, [pf.transientTerm(phi, dt, par['al'])] + spatial(t))
+            pf.solvePDE(phi, [pf.transientTerm(phi, dt, alpha_cv)] + spatial(t))
         exact = at_cells(F['phi'], case['T'])
     err = np.asarray(phi.value, float) - exact
     V = np.abs(np.asarray(m.cellvolume, float))
